@@ -202,7 +202,7 @@ func (g *sim) runOne(id string) {
 			g.tags["verdict"] = true
 		}
 		if g.p.DevErrors && (g.r.Chance(1, 5) || (g.p.DevBias && g.r.Chance(1, 2))) {
-			d := g.r.Pick([]string{"retry", "wait", "fail:INVALID", "fail:INTERNAL", "fail:UNKNOWN", "fail:NOT_FOUND", "fail:CONFLICT", "fail:NOT_SUPPORTED", "fail:ALREADY_EXISTS", "fail:UNAUTHORIZED"})
+			d := g.r.Pick([]string{"retry", "retry:CANCELED", "retry:TIMEOUT", "wait", "fail:INVALID", "fail:INTERNAL", "fail:UNKNOWN", "fail:NOT_FOUND", "fail:CONFLICT", "fail:NOT_SUPPORTED", "fail:ALREADY_EXISTS", "fail:UNAUTHORIZED"})
 			args = append(args, "dev="+d)
 			g.tags["dev-"+strings.Split(d, ":")[0]] = true
 		}
